@@ -14,6 +14,7 @@ package main
 
 import (
 	"bufio"
+	"go/types"
 	"os"
 	"path/filepath"
 	"sort"
@@ -23,6 +24,10 @@ import (
 )
 
 var knownFuncs map[string]bool
+
+// knownSigs: reference name → receiver|params|results of the reference tree
+// (ledger/known_signatures.txt); used only to tell several renamed siblings apart.
+var knownSigs = map[string]string{}
 
 func loadKnownFuncs() {
 	if knownFuncs != nil {
@@ -45,6 +50,16 @@ func loadKnownFuncs() {
 	if len(knownFuncs) < 1000 {
 		fault("ledger/known_functions.txt lists only %d functions", len(knownFuncs))
 	}
+	if g, err := os.Open(filepath.Join(verifDir(), "ledger", "known_signatures.txt")); err == nil {
+		defer g.Close()
+		sc := bufio.NewScanner(g)
+		sc.Buffer(make([]byte, 1<<20), 1<<20)
+		for sc.Scan() {
+			if parts := strings.SplitN(sc.Text(), "\t", 2); len(parts) == 2 && !strings.HasPrefix(parts[0], "#") {
+				knownSigs[parts[0]] = parts[1]
+			}
+		}
+	}
 }
 
 // outermost returns the declared function an anonymous function is nested in.
@@ -62,6 +77,9 @@ func isNewFunc(f *ssa.Function) bool {
 	}
 	loadKnownFuncs()
 	o := outermost(f)
+	if aliasRecvName(o) != "" && knownFuncs[fname(o)] {
+		return false // an instantiated method that a type alias keeps under its reference name
+	}
 	if org := o.Origin(); org != nil && org != o {
 		o = org // an instantiation of a generic function is as new as the generic
 	}
@@ -107,6 +125,18 @@ func dumpFuncs(c *Ctx) {
 		}
 	}
 	sort.Strings(names)
+	if os.Getenv("ZLV_DUMP_SIGS") != "" {
+		sigs := map[string]string{}
+		for _, f := range modFunctions(c) {
+			if f.Parent() == nil && f.Synthetic == "" {
+				sigs[fname(f)] = sigKey(f)
+			}
+		}
+		for _, n := range names {
+			println(n + "\t" + sigs[n])
+		}
+		return
+	}
 	for _, n := range names {
 		println(n)
 	}
@@ -215,7 +245,14 @@ func sigKey(f *ssa.Function) string {
 	if r := f.Signature.Recv(); r != nil {
 		recv = r.Type().String()
 	}
-	return recv + "|" + f.Signature.Params().String() + "|" + f.Signature.Results().String()
+	tup := func(t *types.Tuple) string {
+		var ps []string
+		for i := 0; i < t.Len(); i++ {
+			ps = append(ps, t.At(i).Type().String())
+		}
+		return "(" + strings.Join(ps, ", ") + ")"
+	}
+	return recv + "|" + tup(f.Signature.Params()) + "|" + tup(f.Signature.Results())
 }
 
 func buildRenames(c *Ctx) {
@@ -255,6 +292,18 @@ func buildRenames(c *Ctx) {
 				if j := strings.LastIndex(n, "."); j >= 0 && n[:j+1] == prefix {
 					cands = append(cands, f)
 				}
+			}
+		}
+		if len(cands) > 1 {
+			// several siblings were renamed at once: tell them apart by signature
+			if want := knownSigs[old]; want != "" {
+				var same []*ssa.Function
+				for _, f := range cands {
+					if sigKey(f) == want {
+						same = append(same, f)
+					}
+				}
+				cands = same
 			}
 		}
 		if len(cands) != 1 {
